@@ -187,6 +187,19 @@ func advVFSKinds() map[string]func() avfs.VFS {
 			return v
 		},
 		"RoFS(OrefaFS)": func() avfs.VFS { return rofs.New(newOrefa()) },
+		// a view whose own root directory was removed through the parent: every call still has to return
+		"MemFS.Sub(removed)": func() avfs.VFS {
+			p := newMem()
+
+			v, err := p.Sub("/w/d")
+			if err != nil {
+				return p
+			}
+
+			_ = p.RemoveAll("/w/d")
+
+			return v
+		},
 	}
 }
 
